@@ -902,7 +902,7 @@ RuntimeProfileTest(struct RuntimeProfile *RuntimeProfile,
 						 ~0);
     }
 
-    if (algorithmsProfile) {
+    if (retVal == TPM_RC_SUCCESS && algorithmsProfile) {
 	/* Test the algorithms profile if one was given */
 	retVal = RuntimeAlgorithmSwitchProfile(&RuntimeProfile->RuntimeAlgorithm,
 					       algorithmsProfile, maxStateFormatLevel,
@@ -913,7 +913,7 @@ RuntimeProfileTest(struct RuntimeProfile *RuntimeProfile,
 						~0);
     }
 
-    if (commandsProfile) {
+    if (retVal == TPM_RC_SUCCESS && commandsProfile) {
 	/* Test the commands profile if one was given */
 	retVal = RuntimeCommandsSwitchProfile(&RuntimeProfile->RuntimeCommands,
 					      commandsProfile, maxStateFormatLevel,
